@@ -34,6 +34,15 @@ Theorem C12_scoped_set_get : forall sc ps k v k',
 Proof. exact scoped_set_get. Qed.
 Print Assumptions C12_scoped_set_get.
 
+(* several ScopedDict objects alive at once: every lookup form on any scope of a forest
+   resolves along that scope's own parent chain to the innermost defining scope *)
+Theorem C12_scoped_forest_consistent : forall t s k df,
+  sd_getitem (chain_of t s) k = innermost (chain_of t s) k /\
+  sd_get (chain_of t s) k df = match innermost (chain_of t s) k with Some v => v | None => df end /\
+  (sd_contains (chain_of t s) k = true <-> innermost (chain_of t s) k <> None).
+Proof. exact (fun t s => scoped_consistent (chain_of t s)). Qed.
+Print Assumptions C12_scoped_forest_consistent.
+
 (* recorded refutation of the pre-fix code (known_findings.json: fixed) *)
 Theorem C12_scoped_old_get_refuted :
   exists d k, sd_getitem d k = Some None /\ sd_get_old d k None = Some 5%Z.
